@@ -220,6 +220,7 @@ func Load(repoDir, tags, goos string) (*Prog, error) {
 		normalizeIterCalls(pkg)
 		normalizeVarDecls(pkg)
 		normalizeGoCalls(pkg)
+		normalizeHoistedRanges(pkg)
 		unrollTableLoops(pkg)
 	}
 	registerErrPredicates(p)
